@@ -21,17 +21,22 @@ def locSeal (S : LocalScheme) (be : Backend) (key nonce msg f a : Bytes) : Res S
   (sealLocal S (tokHdr be .localP) k (nonce ++ msg) f a).map fun payload =>
     toHex (showToken (Extracted.versionHeader be) jsonSuffix (Extracted.kindHeader .localK) ⟨payload, f⟩)
 
+/-- header fragments for a payload type with encoding suffix `sfx` (`M::SUFFIX`) -/
+def tokHdrS (b : Backend) (p : Purpose) (sfx : Bytes) : List Bytes :=
+  [Extracted.versionHeader b, sfx, Extracted.kindHeader p.toKind]
+def sfxC : Bytes := [99]   -- "c"
+
 /-- parse, unseal, decode (raw payload), no validation; reports which caller code ran -/
-def locOpen (S : LocalScheme) (be : Backend) (key tok a : Bytes) : String :=
+def locOpenS (S : LocalScheme) (be : Backend) (sfx key tok a : Bytes) : String :=
   match localKey key with
   | .err e => "err " ++ errName e ++ " dec=0 val=0"
   | .panic _ => "panic"
   | .ok k =>
-  match parseToken (Extracted.versionHeader be) jsonSuffix (Extracted.kindHeader .localK) FooterKind.vec.ok tok with
+  match parseToken (Extracted.versionHeader be) sfx (Extracted.kindHeader .localK) FooterKind.vec.ok tok with
   | .err e => "err " ++ errName e ++ " dec=0 val=0"
   | .panic _ => "panic"
   | .ok t =>
-    let (r, tr) := tokenUnseal (unsealLocal S (tokHdr be .localP) k t.payload t.footer a) (fun ct => some ct) (fun _ => .ok ())
+    let (r, tr) := tokenUnseal (unsealLocal S (tokHdrS be .localP sfx) k t.payload t.footer a) (fun ct => some ct) (fun _ => .ok ())
     let d := (tr.filter (fun e => match e with | .decode _ => true | _ => false)).length
     let v := (tr.filter (fun e => match e with | .validate => true | _ => false)).length
     match r with
@@ -39,16 +44,16 @@ def locOpen (S : LocalScheme) (be : Backend) (key tok a : Bytes) : String :=
     | .err e => s!"err {errName e} dec={d} val={v}"
     | .panic _ => "panic"
 
-def pubOpen (be : Backend) (key tok a : Bytes) : String :=
+def pubOpenS (be : Backend) (sfx key tok a : Bytes) : String :=
   match keyDecode be .publicK key with
   | .err e => "err " ++ errName e ++ " dec=0 val=0"
   | .panic _ => "panic"
   | .ok k =>
-  match parseToken (Extracted.versionHeader be) jsonSuffix (Extracted.kindHeader .publicK) FooterKind.vec.ok tok with
+  match parseToken (Extracted.versionHeader be) sfx (Extracted.kindHeader .publicK) FooterKind.vec.ok tok with
   | .err e => "err " ++ errName e ++ " dec=0 val=0"
   | .panic _ => "panic"
   | .ok t =>
-    let (r, tr) := tokenUnseal (unsealPublic (publicScheme be) (tokHdr be .publicP) k t.payload t.footer a) (fun ct => some ct) (fun _ => .ok ())
+    let (r, tr) := tokenUnseal (unsealPublic (publicScheme be) (tokHdrS be .publicP sfx) k t.payload t.footer a) (fun ct => some ct) (fun _ => .ok ())
     let d := (tr.filter (fun e => match e with | .decode _ => true | _ => false)).length
     let v := (tr.filter (fun e => match e with | .validate => true | _ => false)).length
     match r with
@@ -137,11 +142,6 @@ def tyOp (name : String) (a : List String) : Option Types.TOp :=
   | "unverifiedFooter", [_] => some .unverifiedFooter
   | _, _ => none
 
-/-- header fragments for a payload type with encoding suffix `sfx` (`M::SUFFIX`) -/
-def tokHdrS (b : Backend) (p : Purpose) (sfx : Bytes) : List Bytes :=
-  [Extracted.versionHeader b, sfx, Extracted.kindHeader p.toKind]
-def sfxC : Bytes := [99]   -- "c"
-
 def locSealS (be : Backend) (sfx key nonce msg f a : Bytes) : Res String :=
   (localKey key).bind fun k =>
   (sealLocal (localScheme be) (tokHdrS be .localP sfx) k (nonce ++ msg) f a).map fun payload =>
@@ -193,11 +193,19 @@ def step (line : String) : Option String :=
   | ["loc.open", be, key, tok, a, _want] => do
       let be ← Backend.ofString? be
       let key ← ofHex key; let tok ← ofHex tok; let a ← ofHex a
-      some (locOpen (localScheme be) be key tok a)
+      some (locOpenS (localScheme be) be jsonSuffix key tok a)
   | ["pub.open", be, key, tok, a, _want] => do
       let be ← Backend.ofString? be
       let key ← ofHex key; let tok ← ofHex tok; let a ← ofHex a
-      some (pubOpen be key tok a)
+      some (pubOpenS be jsonSuffix key tok a)
+  | ["locc.open", be, key, tok, a, _want] => do
+      let be ← Backend.ofString? be
+      let key ← ofHex key; let tok ← ofHex tok; let a ← ofHex a
+      some (locOpenS (localScheme be) be [99] key tok a)
+  | ["pubc.open", be, key, tok, a, _want] => do
+      let be ← Backend.ofString? be
+      let key ← ofHex key; let tok ← ofHex tok; let a ← ofHex a
+      some (pubOpenS be [99] key tok a)
   | [op, be, sk, msg, f, a, rnd] =>
       if op == "pub.sign" || op == "m.pub.sign" then do
         let be ← Backend.ofString? be
